@@ -107,6 +107,9 @@ def physical(draw, nrev, hist):
             "png_predictor": draw(st.sampled_from([12, 12, 10, 11, 13, 14, 15])),
             "objstm_flate": draw(st.booleans()),
         })
+        if form == "table" and i > 0 and out[i - 1]["form"] == "hybrid" and draw(st.booleans()):
+            # the trailer of the update was copied from the hybrid revision before it, /XRefStm included
+            out[i]["copy_xrefstm"] = True
     return out
 
 
@@ -166,6 +169,8 @@ def run_hist(case):
                 nt = True
             if p["form"] == "hybrid":
                 nt = True
+            if p.get("copy_xrefstm"):
+                classes.append("xrefstm-named-twice")
         desc = lambda: "rendering %d forms=%r bufsiz=%d caching=%r" % (ri, forms, case["bufsiz"], case["caching"])  # noqa: E731
 
         def body():
@@ -181,11 +186,17 @@ def run_hist(case):
                         return "getobj(%d): %s" % (n, W.first_diff(exp, got))
             # per-section object ids
             want = []
-            for p, sec in zip(reversed(phys), reversed(meta["sections"])):
-                want.append((p["form"], sec))
+            for i in reversed(range(len(phys))):
+                form, sec, k = phys[i]["form"], meta["sections"][i], 2 if phys[i]["form"] == "hybrid" else 1
+                if i in meta["copied_xrefstm"]:
+                    # table + the cross-reference stream of the hybrid revision before it, named once more
+                    sec, k = sec | meta["hybrid_parts"][i - 1][2], 2
+                elif (i + 1) in meta["copied_xrefstm"]:
+                    # ... which is therefore not read a second time: only the table of this hybrid revision follows
+                    sec, k = meta["hybrid_parts"][i][1], 1
+                want.append((form, sec, k))
             xi = 0
-            for form, sec in want:
-                k = 2 if form == "hybrid" else 1
+            for form, sec, k in want:
                 if xi + k > len(doc.xrefs):
                     return "only %d xref sections loaded, expected more (forms %r)" % (len(doc.xrefs), forms)
                 ids = set()
